@@ -17,6 +17,7 @@ EXPLANATION = (
     "declarations (V2; one tabled exception for gamma's bound under length factors); position / path-length rows of the base class conform; "
     "(R3) k=None takes get_width with the synthetic edges, the ignored edges and the scale-0 edges ignored; (R4) the constructor never writes to the caller's ignore list / options / constraints or "
     "(R3w) the width that k=None and the lower bound rely on counts every non-ignored element (demands of C09.R7); (R7) cyclic model: walk reconstruction (C14.R1).  "
+    " (R8) cyclic model: the repetition cap and the product bound are checked against the premises that justify a flow-valued cap (exact flow row, weights >= 1) - all three fail for kMinPathErrorCycles and are reported as known findings (modelling limitation); a non-integral superset is rejected for integer weights; filters decide emptiness on the internal route (C01.R5); (R2, extended) every product helper is told an upper bound that dominates the declared bound of its continuous factor, and the integer helper sizes the bit expansion from a bound that dominates the declared bound of the integer factor (symbolic dominance over the bound attributes set in the constructor, with slack_ub >= 1). "
     "their shared defaults.  NOT decided: feasibility for all "
     "k >= width, optimality of the slack sum."
 )
